@@ -227,6 +227,24 @@ def gen_far(rng):
             "hasz": False, "far": True, "len": r * sweep, "turns": 1, "dp": 3, "only_abs": True, "warm": False}
 
 
+def small_loops(rng, n=8):
+    """Full turns whose diameter is below the resolution (added after seed C10j: the segment filter measuring the chord from
+    the last kept vertex instead of the path length -- every interior vertex of such a loop was dropped and the "circle"
+    swept no angle at all).  Their three or four vertices are judged by the end-point, radius and far-side clauses (the
+    angle sums are built for small steps: far = False)."""
+    out = []
+    for _ in range(n):
+        res = 2.0
+        r = rng.uniform(0.36, 0.45) * res          # steps of 2.2-2.8 rad: still below a half turn, so their sense is unambiguous
+        a0 = rng.uniform(-math.pi, math.pi)
+        s = [round(rng.uniform(-20, 20), 2), round(rng.uniform(-20, 20), 2), round(rng.uniform(-3, 3), 1)]
+        c = [s[0] - r * math.cos(a0), s[1] - r * math.sin(a0), s[2]]
+        out.append({"shape": "circle", "res": res, "ccw": rng.random() < 0.5, "start": list(s), "turns": 1, "warm": False,
+                    "target": list(s), "center": list(c), "centers": [list(c)], "r": r, "hasz": False, "far": False,
+                    "len": 2 * math.pi * r})
+    return out
+
+
 def closed_curves(rng, n=24):
     """Full turns written the way a user writes them (added after seed C10g): start and centre offset in short decimals, both
     offset components non-zero, both directions -- the start and target vectors of a closed curve then differ in their last
